@@ -535,44 +535,77 @@ def instrument(fn, contract):
 # ------------------------------------------------------------------ discharge
 
 def discharge(pc, goal, timeout_ms, axioms=()):
-    """(status, model, seconds, backend): status in proved/refuted/unknown."""
+    """(status, model, seconds, backend): status in proved/refuted/unknown.
+
+    Solver run times on these VCs are heavy-tailed in the random seed (the same
+    query: 0.01 s under one seed, several seconds or a timeout under another), so
+    a single long run is the fragile choice.  The schedule is a restart portfolio:
+    short slices under three seeds first, then the full budget under a fourth;
+    the arithmetic abstraction is tried briefly before and at length after the
+    slices.  Any `unsat` proves, any `sat` refutes (then replayed natively);
+    nothing else is ever turned into a verdict."""
     t0 = time.time()
     exprs = list(pc) + [goal]
+    use_pow2 = any(S._uses_pow2(e) for e in exprs)
+    hints = _div_chain_hints(exprs)
     # strategy 0 (proof only): arithmetic abstraction.  Every Length(t) becomes an
     # opaque non-negative integer and hypotheses that mention other sequence
     # operations are dropped (weaker hypotheses: unsat here implies unsat there).
     ab = _arith_abstraction(pc, goal)
-    if ab is not None:
+    ab_hints = _div_chain_hints(ab) if ab is not None else []
+    ab_pow2 = ab is not None and any(S._uses_pow2(e) for e in ab)
+
+    def try_abs(tmo):
+        if ab is None:
+            return False
         s0 = z3.Solver()
-        s0.set("timeout", min(timeout_ms, 3000))
-        if any(S._uses_pow2(e) for e in ab):
+        S.set_budget(s0, tmo)
+        if ab_pow2:
             for a in S.POW2_AXIOMS:
                 s0.add(a)
         for e in ab[:-1]:
             s0.add(e)
+        for h in ab_hints:
+            s0.add(h)
         s0.add(z3.Not(ab[-1]))
-        if s0.check() == z3.unsat:
-            return "proved", None, time.time() - t0, "z3"
-    s = z3.Solver()
-    s.set("timeout", timeout_ms)
-    if any(S._uses_pow2(e) for e in exprs):
-        for a in S.POW2_AXIOMS:
+        return s0.check() == z3.unsat
+
+    def try_main(tmo, seed):
+        s = z3.Solver()
+        S.set_budget(s, tmo)
+        if seed:
+            s.set("random_seed", seed)
+            s.set("smt.random_seed", seed)
+        if use_pow2:
+            for a in S.POW2_AXIOMS:
+                s.add(a)
+        for a in axioms:
             s.add(a)
-    for a in axioms:
-        s.add(a)
-    for e in pc:
-        s.add(e)
-    s.add(z3.Not(goal))
-    r = s.check()
-    dt = time.time() - t0
-    if r == z3.unsat:
-        return "proved", None, dt, "z3"
-    if r == z3.sat:
-        return "refuted", s.model(), dt, "z3"
+        for e in pc:
+            s.add(e)
+        for h in hints:
+            s.add(h)
+        s.add(z3.Not(goal))
+        return s.check(), s
+
+    if try_abs(min(timeout_ms, 1000)):
+        return "proved", None, time.time() - t0, "z3"
+    s = None
+    plan = [(min(timeout_ms, 2000), seed) for seed in (0, 1, 2)]
+    if timeout_ms > 2000:
+        plan.append((timeout_ms, 3))
+    for k, (tmo, seed) in enumerate(plan):
+        if k == len(plan) - 1 and try_abs(min(timeout_ms, 5000)):
+            return "proved", None, time.time() - t0, "z3"
+        r, s = try_main(tmo, seed)
+        if r == z3.unsat:
+            return "proved", None, time.time() - t0, "z3"
+        if r == z3.sat:
+            return "refuted", s.model(), time.time() - t0, "z3"
     # refutation-only retry: pow2 interpreted exactly on 0..96 (ground facts, no
     # quantifiers), every pow2 argument constrained to that range.  A model
     # found this way is a genuine counterexample candidate (replayed natively).
-    if any(S._uses_pow2(e) for e in exprs):
+    if use_pow2:
         m = _pow2_bounded_model(list(pc) + [z3.Not(goal)], axioms, min(timeout_ms, 5000))
         if m is not None:
             return "refuted", m, time.time() - t0, "z3"
@@ -583,6 +616,51 @@ def discharge(pc, goal, timeout_ms, axioms=()):
     if st == "unsat":
         return "proved", None, dt, "cvc5"
     return "unknown", None, dt, "z3+cvc5:" + str(s.reason_unknown())
+
+
+_CHAIN_PROVED = {}
+
+
+def _div_chain_hints(exprs):
+    """Links between floor divisions of the same term by constants that divide
+    each other:  (X div a) div b == X div (a*b)  for numerals a, b > 0.
+
+    A byte-wise decomposition  sum_i ((X div 256^i) mod 256) * 256^i == X  is linear
+    once consecutive quotients are related, and hopeless for the solver when each
+    `X div 256^i` is an unrelated quotient variable (8-byte case: unknown at 60 s
+    without, 10 ms with).  Nothing is assumed: the general statement
+    forall t. (t div a) div b == t div (a*b) is proved by the solver for each pair
+    (a, b) used (cached per process); only then is the instance at X added."""
+    groups = {}
+    seen, todo = set(), list(exprs)
+    while todo:
+        t = todo.pop()
+        if t.get_id() in seen:
+            continue
+        seen.add(t.get_id())
+        if z3.is_quantifier(t):
+            continue
+        if z3.is_app(t):
+            if t.decl().kind() == z3.Z3_OP_IDIV and z3.is_int_value(t.arg(1)) and t.arg(1).as_long() > 1 \
+                    and not z3.is_int_value(t.arg(0)):
+                groups.setdefault(t.arg(0).get_id(), (t.arg(0), set()))[1].add(t.arg(1).as_long())
+            todo.extend(t.children())
+    hints = []
+    for X, cs in groups.values():
+        cs = sorted(cs)
+        for lo, hi in zip(cs, cs[1:]):
+            if hi % lo != 0:
+                continue
+            a, b = lo, hi // lo
+            if (a, b) not in _CHAIN_PROVED:
+                tt = z3.Int("chain!t")
+                s = z3.Solver()
+                S.set_budget(s, 2000)
+                s.add((tt / z3.IntVal(a)) / z3.IntVal(b) != tt / z3.IntVal(a * b))
+                _CHAIN_PROVED[(a, b)] = (s.check() == z3.unsat)
+            if _CHAIN_PROVED[(a, b)]:
+                hints.append((X / z3.IntVal(a)) / z3.IntVal(b) == X / z3.IntVal(hi))
+    return hints
 
 
 def _arith_abstraction(pc, goal):
@@ -675,7 +753,7 @@ def _pow2_args(exprs):
 
 def _pow2_bounded_model(exprs, axioms, timeout_ms, bound=96):
     s = z3.Solver()
-    s.set("timeout", timeout_ms)
+    S.set_budget(s, timeout_ms)
     for i in range(bound + 1):
         s.add(S.pow2f(i) == z3.IntVal(1 << i))
     for a in _pow2_args(exprs):
@@ -811,6 +889,7 @@ def run_contract(contract, gridpoint, timeout_ms=10000, max_paths=4000, unwind=6
                 o = agg.setdefault(name, {"status": "proved", "instances": 0, "time": 0.0, "backends": {}})
                 o["instances"] += 1
                 o["time"] += dt
+                o["tmax"] = max(o.get("tmax", 0.0), dt)
                 o["backends"][backend.split(":")[0]] = o["backends"].get(backend.split(":")[0], 0) + 1
                 if st == "refuted":
                     if o["status"] != "refuted":
@@ -901,7 +980,7 @@ def _run_path(contract, gridpoint, call_fn, rt, c, res):
     if contract.requires:
         for r in contract.requires(env):
             c.assume(r)
-    rq, _ = c.check(timeout=2000)
+    rq, _ = c.check(timeout=2000, wall_factor=2)
     if rq == z3.unsat:
         res["errors"].append("vacuous: requires unsatisfiable at grid %r" % (gridpoint,))
         return
@@ -936,6 +1015,12 @@ def _run_path(contract, gridpoint, call_fn, rt, c, res):
                 return
             tb = traceback.extract_tb(exc.__traceback__)
             where = "%s:%s" % (tb[-1].name, tb[-1].line) if tb else ""
+            import re
+            if isinstance(exc, (TypeError, AttributeError)) and re.search(r"\bSym[A-Z]\w*", str(exc)):
+                # e.g. "unsupported operand type(s) for >>: 'int' and 'SymInt'": an operation the
+                # proxies do not model.  No native run can raise this, so it is a limit of the
+                # checker on this path (undecided), never a verdict about the code.
+                raise Undecided("operation not modelled by the symbolic proxies: %r at %s" % (exc, where))
             c.oblige("no-unexpected-exception:%s" % type(exc).__name__, False,
                      info={"exc": repr(exc)[:200], "where": where})
         return
@@ -949,7 +1034,7 @@ def _run_path(contract, gridpoint, call_fn, rt, c, res):
             c.oblige("post:%s" % name, g)
         # canary / witness: pc /\ post satisfiable on this path?
         if res.get("witness") is None and inputs:
-            r, s = c.check(timeout=1000)
+            r, s = c.check(timeout=1000, wall_factor=2)
             if r == z3.sat:
                 m = s.model()
                 c.ghost["witness"] = {k: model_value(m, v) for k, v in inputs.items()}
@@ -1036,16 +1121,32 @@ def replay_native(contract, gridpoint, inputs):
 
 class Lemma:
     """A spec-level obligation  hyps => goal  (e.g. an induction step whose
-    induction hypothesis is listed in hyps; z3 does no induction by itself)."""
+    induction hypothesis is listed in hyps; z3 does no induction by itself).
 
-    def __init__(self, name, build, note=""):
+    build() returns (hyps, goal): one query.  With script=True, build(P) is a
+    small proof script over a `Proof` object: every `have`/`have_forall`/`show`
+    is its own solver query (its own obligation in the evidence), and a fact is
+    only available to later steps after the solver has proved it.  Splitting
+    keeps each query inside one theory combination the solver is stable on
+    (definition unfolding of a recursive spec function | linear arithmetic with
+    pow2) instead of one query mixing all of them."""
+
+    def __init__(self, name, build, note="", script=False):
         self.name = name
         self.build = build
         self.note = note
+        self.script = script
 
     def run(self, timeout_ms):
         c = Ctx((), timeout_ms)
         set_ctx(c)
+        if self.script:
+            P = Proof(timeout_ms)
+            try:
+                self.build(P)
+            finally:
+                set_ctx(None)
+            return P.result()
         try:
             hyps, goal = self.build()
             hyps = [as_z3_bool(h) for h in hyps]
@@ -1056,4 +1157,70 @@ class Lemma:
         info = {"time": dt, "backend": backend.split(":")[0]}
         if st == "refuted":
             info["model_text"] = str(model)[:1500]
+        return st, info
+
+
+class Proof:
+    """Facts of a lemma script.  `assume` adds a hypothesis of the lemma (part of
+    its statement, e.g. the induction hypothesis); everything else is proved."""
+
+    def __init__(self, timeout_ms):
+        self.timeout_ms = timeout_ms
+        self.facts = []
+        self.steps = []        # (name, status, seconds, backend)
+        self.model_text = None
+        self._n = 0
+        self.shown = False
+
+    def var(self, name):
+        from .sym import SymInt
+        return SymInt(z3.Int(name))
+
+    def assume(self, h):
+        self.facts.append(as_z3_bool(h))
+
+    def _step(self, name, hyps, goal):
+        st, model, dt, backend = discharge(hyps, goal, self.timeout_ms)
+        self.steps.append((name, st, dt, backend.split(":")[0]))
+        if st == "refuted" and self.model_text is None:
+            self.model_text = "step %r: %s" % (name, str(model)[:1400])
+        return st
+
+    def have(self, name, goal, using=None):
+        """prove goal from the facts so far (or only from `using`), then keep it"""
+        goal = as_z3_bool(goal)
+        hyps = list(self.facts) if using is None else [as_z3_bool(u) for u in using]
+        if self._step(name, hyps, goal) == "proved":
+            self.facts.append(goal)
+
+    def have_forall(self, name, fn, *terms):
+        """fn(*args) -> (hyps, goal).  Proved once on fresh integer constants in an
+        empty context (i.e. for all integers), then the instance at `terms` is kept."""
+        from .sym import SymInt
+        self._n += 1
+        fresh = [SymInt(z3.Int("q%d!%d" % (i, self._n))) for i in range(len(terms))]
+        hyps, goal = fn(*fresh)
+        if self._step(name, [as_z3_bool(h) for h in hyps], as_z3_bool(goal)) == "proved":
+            ih, ig = fn(*terms)
+            ih = [as_z3_bool(h) for h in ih]
+            self.facts.append(z3.Implies(z3.And(*ih), as_z3_bool(ig)) if ih else as_z3_bool(ig))
+
+    def show(self, goal, name="conclusion"):
+        self.shown = True
+        self._step(name, list(self.facts), as_z3_bool(goal))
+
+    def result(self):
+        sts = [s[1] for s in self.steps]
+        if not self.shown or not sts:
+            st = "unknown"
+        elif all(s == "proved" for s in sts):
+            st = "proved"
+        elif self.steps[-1][1] == "refuted" and all(s == "proved" for s in sts[:-1]):
+            st = "refuted"      # the statement itself has a counter-model
+        else:
+            st = "unknown"      # a proof step failed: the script is inadequate, nothing is refuted
+        info = {"time": sum(s[2] for s in self.steps), "backend": "z3",
+                "steps": [{"step": s[0], "status": s[1], "time": round(s[2], 3), "backend": s[3]} for s in self.steps]}
+        if st == "refuted":
+            info["model_text"] = self.model_text
         return st, info
